@@ -127,11 +127,17 @@ func genC20(tier, out string, sum *Summary) {
 	for i := 0; i < n; i++ {
 		x := c20Value(2)
 		var y, z any
-		switch rng.Intn(4) {
+		switch rng.Intn(5) {
 		case 0:
 			y = respell(x)
 		case 1:
 			y = c20Value(2)
+		case 4:
+			y = nearMiss(x)
+			if _, isObj := x.(map[string]any); !isObj && rng.Intn(2) == 0 {
+				x = map[string]any{"p": x, "q": nil}
+				y = nearMiss(x)
+			}
 		default:
 			y = respell(x)
 			if rng.Intn(2) == 0 {
@@ -211,6 +217,30 @@ func genC20(tier, out string, sum *Summary) {
 		}
 		fo := run(filt(fld("l"), fld("a"), cur()))
 		_ = fo
+		// truthiness is uniform for computed values too: a computed zero is a number, hence true-like; computed empty containers are false-like
+		for _, ce := range []struct {
+			e     string
+			falsy bool
+		}{{"`1` - `1`", false}, {"sum(`[]`)", false}, {"`0` * `5`", false}, {"avg(`[1,-1]`)", false}, {"abs(`0`)", false}, {"length(`[]`)", false}, {"to_number('0')", false}, {"- `0`", false}, {"`2` % `2`", false}, {"`[1]`[1:]", true}, {"keys(`{}`)", true}, {"merge(`{}`, `{}`)", true}, {"to_string(`\"\"`)", true}, {"join('', `[]`)", true}, {"'' || `null`", true}, {"trim(' ')", true}, {"reverse(`[]`)", true}} {
+			on := search("!("+ce.e+")", doc)
+			oa := search("("+ce.e+") && 'yes'", doc)
+			oo := search("("+ce.e+") || 'fallback'", doc)
+			of := search("[("+ce.e+")][?@] | length(@)", doc)
+			sum.count("computed-truthiness")
+			nb, okn := boolOf(on)
+			good := okn && nb == ce.falsy
+			if ce.falsy {
+				good = good && oo.Kind == "val" && oo.Value == "fallback" && oa.Kind == "val" && oa.Value != "yes" && of.Kind == "val" && sameValue(of.Value, json.Number("0"), false)
+			} else {
+				good = good && oa.Kind == "val" && oa.Value == "yes" && oo.Kind == "val" && oo.Value != "fallback" && of.Kind == "val" && sameValue(of.Value, json.Number("1"), false)
+			}
+			if !good {
+				fail(fmt.Sprintf("computed value %s: !v=%s, v && 'yes'=%s, v || 'fallback'=%s, [v][?@] | length=%s", ce.e, describe(on), describe(oa), describe(oo), describe(of)))
+			}
+			if i > 3 {
+				break // the table does not depend on the document: a few repetitions are enough
+			}
+		}
 		f2 := search("[x][?@]", doc)
 		wantF := []any{x}
 		if falseLike(x) {
@@ -270,6 +300,24 @@ func genC18(tier, out string, sum *Summary) {
 		sum.count("first/" + o1.Kind)
 		un := hasEnum(e1) || hasEnum(e2)
 		c.emit(e1, doc, o1, hasEnum(e1))
+		if i%4 == 0 { // the same through encoding/json without UseNumber: float64 leaves, incl. extreme magnitudes
+			fd := floatDoc(doc)
+			of := search(t1, fd)
+			sum.count("float-doc/" + of.Kind)
+			if of.Kind == "val" {
+				if ok, why := plainResultF(of.Value); !ok {
+					sum.direct("closure", t1, fd, "result contains a value of Go type "+why)
+				}
+				if _, err := json.Marshal(of.Value); err != nil {
+					sum.direct("closure", t1, fd, "result does not serialise: "+err.Error())
+				}
+				o2f := search(unparse(e2), of.Value)
+				opf := search(unparse(pipe(e1, e2)), fd)
+				if !sameObs(o2f, opf, un) && !(o2f.Kind == "err" && opf.Kind == "err") && !(un && (orderSensitive(e1) || orderSensitive(e2))) {
+					sum.direct("requery", unparse(pipe(e1, e2)), fd, fmt.Sprintf("searching e2 over the result of e1 gives %s but e1 | e2 gives %s", describe(o2f), describe(opf)))
+				}
+			}
+		}
 		if o1.Kind != "val" {
 			continue
 		}
@@ -282,7 +330,7 @@ func genC18(tier, out string, sum *Summary) {
 		o2 := search(unparse(e2), o1.Value)
 		op := search(unparse(pipe(e1, e2)), doc)
 		sum.count("second/" + o2.Kind)
-		if !sameObs(o2, op, un) {
+		if !sameObs(o2, op, un) && !(un && (orderSensitive(e1) || orderSensitive(e2))) {
 			// when both fail, any of the faults present may be reported
 			if !(o2.Kind == "err" && op.Kind == "err") {
 				sum.direct("requery", unparse(pipe(e1, e2)), doc, fmt.Sprintf("searching e2 over the result of e1 gives %s but e1 | e2 gives %s", describe(o2), describe(op)))
@@ -293,6 +341,23 @@ func genC18(tier, out string, sum *Summary) {
 		}
 		if !hasNonJSON(o1.Value) {
 			c.emit(e2, o1.Value, o2, hasEnum(e2))
+		}
+	}
+	// documents decoded without UseNumber, with magnitudes at the edge of binary64: results must stay serialisable
+	for _, fd := range []map[string]any{{"a": 1e308, "b": 1e-10, "c": -1e308, "z": 0.0}, {"a": 1.7976931348623157e308, "b": 0.5, "c": 5e-324, "z": 0.0}, {"a": 3.0, "b": 0.0, "c": -2.5, "z": 0.0}} {
+		for _, e := range []string{"a / b", "a * a", "a + a", "c - a", "a // b", "a % b", "c * a", "- a", "abs(c)", "ceil(a)", "floor(c)", "a / z", "z / z", "{q: a / b}", "[a / b, b / a]", "map(&(@ / `1e-10`), [a])", "a / b | type(@)", "sum([a, a])", "avg([a, c])", "max([a, b])", "sort([a, c, b])", "a < b", "a == a", "to_string(a / c)", "[a, b][?@ / $.b > `1`]"} {
+			o := search(e, fd)
+			sum.count("extreme-floats/" + o.Kind)
+			if o.Kind == "val" {
+				if ok, why := plainResultF(o.Value); !ok {
+					sum.direct("closure", e, fd, "result contains "+why+": "+describe(o))
+				}
+				if _, err := json.Marshal(o.Value); err != nil {
+					sum.direct("closure", e, fd, "result does not serialise: "+err.Error())
+				}
+			} else if o.Kind != "err" {
+				sum.direct("closure", e, fd, describe(o))
+			}
 		}
 	}
 	c.sh.Flush()
@@ -436,4 +501,108 @@ func orderSensitive(e *R) bool {
 		}
 	}
 	return false
+}
+
+// the document as encoding/json decodes it without UseNumber; some leaves get extreme magnitudes
+func floatDoc(v any) any {
+	switch v := v.(type) {
+	case json.Number:
+		if rng.Intn(6) == 0 {
+			return pick([]float64{1e308, -1e308, 1e-300, 5e-324, 1.7976931348623157e308, 0, 1e-10})
+		}
+		f, _ := v.Float64()
+		return f
+	case []any:
+		c := make([]any, len(v))
+		for i, x := range v {
+			c[i] = floatDoc(x)
+		}
+		return c
+	case map[string]any:
+		c := map[string]any{}
+		for k, x := range v {
+			c[k] = floatDoc(x)
+		}
+		return c
+	}
+	return v
+}
+
+func plainResultF(v any) (bool, string) {
+	switch v := v.(type) {
+	case float64:
+		if v != v || v > 1.7976931348623157e308 || v < -1.7976931348623157e308 {
+			return false, "float64 that is not a finite number"
+		}
+		return true, ""
+	case []any:
+		for _, x := range v {
+			if ok, why := plainResultF(x); !ok {
+				return false, why
+			}
+		}
+		return true, ""
+	case map[string]any:
+		for _, x := range v {
+			if ok, why := plainResultF(x); !ok {
+				return false, why
+			}
+		}
+		return true, ""
+	}
+	return plainResult(v)
+}
+
+// a value that differs from v in one small way: a renamed key, a null member vs a missing member,
+// a different spelling that is NOT equal, an extra element
+func nearMiss(v any) any {
+	switch v := v.(type) {
+	case map[string]any:
+		c := map[string]any{}
+		keys := []string{}
+		for k, x := range v {
+			c[k] = x
+			keys = append(keys, k)
+		}
+		if len(keys) == 0 {
+			c["a"] = nil
+			return c
+		}
+		k := pick(keys)
+		switch rng.Intn(4) {
+		case 0: // rename a key, keep the value (same size, different key set)
+			val := c[k]
+			delete(c, k)
+			c[k+"x"] = val
+		case 1: // null member under another name
+			delete(c, k)
+			c[k+"y"] = nil
+		case 2:
+			c[k] = nearMiss(c[k])
+		default:
+			c[k] = nil
+		}
+		return c
+	case []any:
+		c := append([]any{}, v...)
+		if len(c) == 0 {
+			return []any{nil}
+		}
+		i := rng.Intn(len(c))
+		if rng.Intn(2) == 0 {
+			c[i] = nearMiss(c[i])
+		} else {
+			c = append(c, nil)
+		}
+		return c
+	case nil:
+		return pick([]any{false, "", json.Number("0"), []any{}, map[string]any{}})
+	case bool:
+		return !v
+	case string:
+		return v + "x"
+	case json.Number:
+		return json.Number(string(v) + "1")
+	}
+	return v
 }
